@@ -5,14 +5,15 @@
 * FakeSharedMemory -- stand-in for multiprocessing.shared_memory.SharedMemory over the registry
                    (POSIX semantics: create fails if the name exists, open/unlink fail if it does not,
                    a mapping obtained before unlink stays usable)
-* fake_open     -- stand-in for the builtin open as used by disk.Disk._page_out/_page_in; an injected
-                   fault makes it raise OSError (disk full / unreadable file)
+* fake_open     -- the builtin open as used by disk.Disk._page_out/_page_in over the real temporary page-out directory;
+                   an injected fault makes it raise OSError (disk full / unreadable file)
 * ManualExecutor -- stand-in for ThreadPoolExecutor: submit() only records the job; the harness runs the
                    two halves of each job (the real Disk._page_out/_page_in body, then the real Manager
                    callback) when the op list says so
 * Clock, UUIDs  -- scripted time.time_ns / uuid.uuid4
 """
 import io
+import threading
 import types
 
 
@@ -23,7 +24,18 @@ class Registry:
         self.fault = False
 
 
-WORLD = types.SimpleNamespace(reg=Registry())
+WORLD = types.SimpleNamespace(reg=Registry(), gates={})
+
+
+class Gate:
+    """holds the thread that runs a real Disk._page_out body just before its shm.unlink()"""
+
+    def __init__(self):
+        self.progress = threading.Event()   # set when the body reached the gate or ended
+        self.go = threading.Event()
+        self.at_gate = False
+        self.passed = False
+        self.abort = False
 
 
 class FakeSharedMemory:
@@ -53,38 +65,26 @@ class FakeSharedMemory:
         pass
 
     def unlink(self):
+        g = WORLD.gates.get(threading.get_ident())
+        if g is not None and not g.passed:
+            g.passed = True
+            g.at_gate = True
+            g.progress.set()
+            g.go.wait(60)
+            if g.abort:
+                raise FileNotFoundError(2, "history ended before the unlink step", self._name)
         reg = WORLD.reg
         if self._name not in reg.segs:
             raise FileNotFoundError(2, "No such file or directory", self._name)
         del reg.segs[self._name]
 
 
-class _Writer:
-    def __init__(self, reg, name):
-        self.reg, self.name = reg, name
-        reg.files[name] = b""   # "wb" truncates at open
-
-    def write(self, b):
-        self.reg.files[self.name] = self.reg.files[self.name] + bytes(b)
-        return len(b)
-
-    def __enter__(self):
-        return self
-
-    def __exit__(self, *a):
-        return False
-
-
 def fake_open(path, mode="r", *a, **k):
-    reg = WORLD.reg
-    name = str(path).rsplit("/", 1)[-1]
-    if reg.fault:
+    """the builtin open as seen by cascade.shm.disk: the page-out directory is a REAL temporary directory (so that whatever file API
+    the code uses sees the same files); only the injected fault is ours"""
+    if WORLD.reg.fault:
         raise OSError(28, "injected disk fault", str(path))
-    if "w" in mode:
-        return _Writer(reg, name)
-    if name not in reg.files:
-        raise FileNotFoundError(2, "No such file or directory", str(path))
-    return io.BytesIO(reg.files[name])
+    return open(path, mode, *a, **k)
 
 
 class Job:
@@ -94,7 +94,7 @@ class Job:
         self.shmid = args[0]
         self.size = args[1] if self.kind == "in" else None
         self.callback = args[-1]
-        self.phase = "io"        # io -> cb -> done
+        self.phase = "io"        # io -> (unlink, page-out only) -> cb -> done
         self.ok = None
         self.cb_exc = None
 
@@ -114,20 +114,65 @@ class JobBoard:
         return j
 
     def run_io(self, jid, fault=False):
+        """page-in: the whole real body.  page-out: the real body up to (not including) its shm.unlink(): the body runs in a
+        helper thread that is parked at the unlink until run_unlink; the caller only continues once the thread is parked or done"""
         if not (0 <= jid < len(self.jobs)) or self.jobs[jid].phase != "io":
             return False
         j = self.jobs[jid]
         got = []
         args = list(j.args[:-1]) + [lambda ok: got.append(bool(ok))]
+        j.got = got
         WORLD.reg.fault = bool(fault)
         try:
-            j.fn(*args)     # the real Disk._page_out / _page_in body; it reports through our deferred callback
+            if j.kind != "out":
+                j.fn(*args)     # the real Disk._page_in body; it reports through our deferred callback
+            else:
+                gate = Gate()
+
+                def body():
+                    WORLD.gates[threading.get_ident()] = gate
+                    try:
+                        j.fn(*args)
+                    finally:
+                        WORLD.gates.pop(threading.get_ident(), None)
+                        gate.at_gate = False
+                        gate.progress.set()
+                t = threading.Thread(target=body, daemon=True)
+                j.gate, j.thread = gate, t
+                t.start()
+                if not gate.progress.wait(60):
+                    raise RuntimeError("page-out body neither reached its unlink nor ended")
+                if gate.at_gate:
+                    j.phase = "unlink"
+                    return True
+                t.join(60)
         finally:
             WORLD.reg.fault = False
         if len(got) != 1:
             raise RuntimeError(f"disk job body called its callback {len(got)} times")
         j.ok, j.phase = got[0], "cb"
         return True
+
+    def run_unlink(self, jid):
+        if not (0 <= jid < len(self.jobs)) or self.jobs[jid].phase != "unlink":
+            return False
+        j = self.jobs[jid]
+        j.gate.progress.clear()
+        j.gate.go.set()
+        j.thread.join(60)
+        if len(j.got) != 1:
+            raise RuntimeError(f"disk job body called its callback {len(j.got)} times")
+        j.ok, j.phase = j.got[0], "cb"
+        return True
+
+    def abort_all(self):
+        """end of a history: let parked page-out bodies die without touching anything"""
+        for j in self.jobs:
+            if j.phase == "unlink":
+                j.gate.abort = True
+                j.gate.go.set()
+                j.thread.join(60)
+                j.phase = "aborted"
 
     def run_cb(self, jid):
         if not (0 <= jid < len(self.jobs)) or self.jobs[jid].phase != "cb":
